@@ -180,3 +180,25 @@ Definition zcount (P : Z -> bool) (lo hi : Z) : Z := Z.of_nat (length (filter P 
 
 Definition in_kids (kids : list minput) (p : Z) : bool :=
   existsb (fun k => (m_start (mi_v k) <=? p) && (p <=? m_end (mi_v k))) kids.
+
+(* ---- inputs of several classes (C16_default_runs_per_class) ---- *)
+Definition class_of (v : mfeat) : str * str * str := (m_seqid v, m_strand v, m_ftype v).
+Definition block_class (b : list minput) : str * str * str :=
+  match b with f :: _ => class_of (mi_v f) | [] => ([], [], []) end.
+(* the input cut at every change of class: maximal stretches of consecutive features of one class *)
+Fixpoint group (fs : list minput) : list (list minput) :=
+  match fs with
+  | [] => []
+  | f :: l => match group l with
+              | (g :: b) :: r => if same_class (mi_v f) (mi_v g) then (f :: g :: b) :: r else [f] :: (g :: b) :: r
+              | _ => [[f]]
+              end
+  end.
+
+(* merge() applied to the blocks one after the other, the id counters running through *)
+Fixpoint merge_blocks (cs : crits) (blocks : list (list minput)) (a : counters) : list (list mout) * counters :=
+  match blocks with
+  | [] => ([], a)
+  | b :: r => let '(o, a1) := merge cs b a in
+              let '(os, a2) := merge_blocks cs r a1 in (o :: os, a2)
+  end.
